@@ -23,6 +23,8 @@ pub fn defs() -> Vec<ScenDef> {
         d("rw", rw, false),
         d("rwc", rwc, true),
         d("rwseq", rwseq, false),
+        d("hsmutex", hsmutex, false),
+        d("hssem", hssem, false),
     ]
 }
 
@@ -750,6 +752,7 @@ fn rw_impl(x: &mut Exec, with_cancel: bool) -> Res {
 
 /// sequential random operation sequences against a small reference model
 fn rwseq(x: &mut Exec) -> Res {
+    #[allow(dead_code)]
     enum G<'a> {
         R(may::sync::RwLockReadGuard<'a, u64>),
         W(may::sync::RwLockWriteGuard<'a, u64>),
@@ -853,5 +856,192 @@ fn rwseq(x: &mut Exec) -> Res {
         Err(TryLockError::WouldBlock) => return viol(format!("RwLock model: try_write is WouldBlock after every guard was dropped; ops={:?}", trace)),
         _ => {}
     }
+    Ok(())
+}
+
+// ------------------------------------------------------------------------------------ handshake stress
+// The cancel / time-out paths of Mutex, Semphore, Condvar, RwLock and SyncFlag share one handshake
+// (waiter: set_release, re-check is_unparked; waker: unpark, take_release). Its windows are a few
+// instructions wide and both sides run on different OS threads, so besides the stall sweeps these
+// two scenarios race cancel against unlock / post thousands of times per execution with random
+// sub-microsecond offsets and check the primitive after every round (no waiting: a stranded lock or
+// a lost permit is visible at once).
+
+fn spin(n: u64) {
+    for _ in 0..n {
+        std::hint::spin_loop();
+    }
+}
+
+struct Racer {
+    round: Arc<AtomicUsize>,
+    done: Arc<AtomicUsize>,
+    stop: Arc<AtomicBool>,
+    slot: Arc<std::sync::Mutex<Option<may::coroutine::Coroutine>>>,
+    h: Option<std::thread::JoinHandle<()>>,
+}
+impl Racer {
+    /// helper thread that cancels the coroutine in `slot` each time `round` advances, after `delay` spins
+    fn start(seed: u64) -> Racer {
+        let round = Arc::new(AtomicUsize::new(0));
+        let done = Arc::new(AtomicUsize::new(0));
+        let stop = Arc::new(AtomicBool::new(false));
+        let slot: Arc<std::sync::Mutex<Option<may::coroutine::Coroutine>>> = Default::default();
+        let (r2, d2, s2, sl2) = (round.clone(), done.clone(), stop.clone(), slot.clone());
+        let h = std::thread::spawn(move || {
+            let mut r = Rng::new(seed);
+            let mut seen = 0;
+            loop {
+                while r2.load(SeqCst) == seen {
+                    if s2.load(SeqCst) {
+                        return;
+                    }
+                    std::hint::spin_loop();
+                }
+                seen += 1;
+                spin(r.below(400));
+                if let Some(c) = sl2.lock().unwrap().take() {
+                    unsafe { c.cancel() };
+                }
+                d2.store(seen, SeqCst);
+            }
+        });
+        Racer { round, done, stop, slot, h: Some(h) }
+    }
+    fn fire(&self, co: may::coroutine::Coroutine) -> usize {
+        *self.slot.lock().unwrap() = Some(co);
+        self.round.fetch_add(1, SeqCst) + 1
+    }
+    fn wait(&self, n: usize) {
+        while self.done.load(SeqCst) < n {
+            std::hint::spin_loop();
+        }
+    }
+}
+impl Drop for Racer {
+    fn drop(&mut self) {
+        self.stop.store(true, SeqCst);
+        if let Some(h) = self.h.take() {
+            let _ = h.join();
+        }
+    }
+}
+
+fn hsmutex(x: &mut Exec) -> Res {
+    let rounds = if x.thorough { 20_000 } else { 4_000 };
+    let racer = Racer::start(x.rng.next());
+    let a = x.passive_actor("driver");
+    let mut got_lock = 0u64;
+    let mut cancelled = 0u64;
+    for round in 0..rounds {
+        let m = Arc::new(Mutex::new(0u32));
+        let g = m.lock().unwrap();
+        let parked = Arc::new(AtomicBool::new(false));
+        let (m2, p2) = (m.clone(), parked.clone());
+        let w = go!(move || {
+            p2.store(true, SeqCst);
+            let g = m2.lock().unwrap();
+            drop(g);
+            // keep the coroutine cancellable to the end
+            loop {
+                may::coroutine::park();
+            }
+        });
+        while !parked.load(SeqCst) {
+            std::hint::spin_loop();
+        }
+        spin(200 + x.rng.below(1500)); // let W reach its park
+        let n = racer.fire(w.coroutine().clone());
+        // the cancelled waiter runs its cancel path only after a wake-up latency of some
+        // microseconds: spread the unlock over that range
+        let far = x.rng.chance(2, 3);
+        spin(x.rng.below(if far { 40_000 } else { 400 }));
+        drop(g); // the unlock races with the cancel
+        racer.wait(n);
+        let wr = &w;
+        x.wait_cond(&|| wr.is_done()).map_err(|e| match e {
+            Fail::Stranded(m) => Fail::Stranded(format!("round {}: cancelled waiter never finished; {}", round, m)),
+            o => o,
+        })?;
+        match w.join() {
+            Err(e) if is_cancel_panic(&e) => cancelled += 1,
+            _ => return viol(format!("round {}: join() of the cancelled waiter did not report Cancel", round)),
+        }
+        match m.try_lock() {
+            Ok(_) => {}
+            Err(TryLockError::WouldBlock) => {
+                a.note("stranded", round, 0);
+                return viol(format!(
+                    "Mutex handshake: round {}: after the holder unlocked and the cancelled waiter ended, try_lock is WouldBlock: the lock has no owner and every later lock() would hang (cancel raced with the hand-over)",
+                    round
+                ));
+            }
+            Err(_) => return viol("Mutex handshake: poisoned by a cancel"),
+        }
+        got_lock += 1;
+    }
+    a.note("rounds", got_lock, cancelled);
+    x.desc = format!("mutex cancel/unlock race: {} rounds, cancel and unlock 0-400 spins apart on two OS threads", rounds);
+    Ok(())
+}
+
+fn hssem(x: &mut Exec) -> Res {
+    let rounds = if x.thorough { 20_000 } else { 4_000 };
+    let racer = Racer::start(x.rng.next());
+    let a = x.passive_actor("driver");
+    for round in 0..rounds {
+        let s = Arc::new(Semphore::new(0));
+        let parked = Arc::new(AtomicBool::new(false));
+        let got = Arc::new(AtomicBool::new(false));
+        let timed = x.rng.chance(1, 3);
+        let (s2, p2, g2) = (s.clone(), parked.clone(), got.clone());
+        let w = go!(move || {
+            p2.store(true, SeqCst);
+            let ok = if timed { s2.wait_timeout(Duration::from_millis(1)) } else { s2.wait(); true };
+            g2.store(ok, SeqCst);
+            if timed {
+                return;
+            }
+            loop {
+                may::coroutine::park();
+            }
+        });
+        while !parked.load(SeqCst) {
+            std::hint::spin_loop();
+        }
+        if timed {
+            // race the post with the 1 ms time-out instead of a cancel
+            let t0 = Instant::now();
+            let d = 950 + x.rng.below(120);
+            while t0.elapsed() < Duration::from_micros(d) {
+                std::hint::spin_loop();
+            }
+            s.post();
+        } else {
+            spin(200 + x.rng.below(1500));
+            let n = racer.fire(w.coroutine().clone());
+            let far = x.rng.chance(2, 3);
+            spin(x.rng.below(if far { 40_000 } else { 400 }));
+            s.post();
+            racer.wait(n);
+        }
+        let wr = &w;
+        x.wait_cond(&|| wr.is_done())?;
+        let _ = w.join();
+        let took = got.load(SeqCst) as usize;
+        if s.get_value() != 1 - took {
+            a.note("lost", round, 0);
+            return viol(format!(
+                "Semphore handshake: round {}: one post, waiter {} -> value should be {} but is {} (permit {} while {} raced with the post)",
+                round,
+                if took == 1 { "got the permit" } else { "did not get it" },
+                1 - took,
+                s.get_value(),
+                if s.get_value() > 1 - took { "duplicated" } else { "lost" },
+                if timed { "the time-out" } else { "the cancel" }
+            ));
+        }
+    }
+    x.desc = format!("semaphore cancel|timeout/post race: {} rounds", rounds);
     Ok(())
 }
